@@ -75,3 +75,7 @@ Proof.
     intros H; inversion H; subst; cbn. right. apply Z.ltb_lt in L. repeat split; lia.
   - intros H; inversion H; subst. left; reflexivity.
 Qed.
+
+(* the interpreter executes pure operations through [pure_op] *)
+Lemma exec_op_pure o s : is_pure o = true -> exec_op o s = lift_pure s (pure_op o (stk s)).
+Proof. destruct o; intros H; try discriminate H; reflexivity. Qed.
